@@ -357,6 +357,26 @@ def check(run, prefix="O19"):
         ok = bool(callers) and all(K.peel(c.body.operand_term(c.args[1]))[0] == "const" and K.peel(c.body.operand_term(c.args[1]))[2] == consts["MAX_SIGNERS"] for c in callers)
         o.check(ok, "read_bitvec|max-signers", "read_bitvec is called with MAX_SIGNERS (%s)" % consts["MAX_SIGNERS"], callers[0].span if callers else "")
 
+    # explicit wire-schema overrides in derived impls (`#[wincode(with = ..)]` with a bounded length / container schema): a bound
+    # has to admit everything the sender may emit; none is used on the reviewed tree, any new one must be reviewed here
+    import re as _re
+    REVIEWED_SCHEMAS = {}      # schema type string -> (max elements it must admit, reason)
+    found = {}
+    for r_ in prog.anon_bodies:
+        for bl in r_["blocks"]:
+            t_ = bl["term"]
+            if t_["k"] == "call":
+                for m_ in _re.finditer(r"wincode::(?:len|containers)::[A-Za-z0-9_]+(?:<[^()]*?>)?", t_.get("callee_args", "")):
+                    found.setdefault(m_.group(0)[:120], r_.get("span", ""))
+    for sch, sp_ in sorted(found.items()):
+        o.check(sch in REVIEWED_SCHEMAS, "schema-override|%s" % sch, "explicit wire schema %s in a derived impl is reviewed (its length bound admits every value the sender emits)" % sch, sp_)
+    o.ok("schema-override|scan", "%d derive-generated wire impl bodies scanned for explicit length / container schemas (%d found)" % (len(prog.anon_bodies), len(found)), "", nontrivial=False)
+
+    # the one hand-rolled encoder outside the derive: the slice's transaction list (count prefix patched in by the block producer)
+    if P == "O19":
+        from . import C10
+        C10.ob_sanitise_tx(run, P + ".6")
+
     # ------------------------------------------------------------------ O19.5
     o = run.ob(P + ".5", "worst-case encoded size of every wire root <= MTU_BYTES",
                "a message above the MTU trips the send-side assertion (panic) or is truncated/dropped by the network", floor=5)
